@@ -266,6 +266,30 @@ func runSpareCap(p *core.Prog) *core.Result {
 			res.Bad(key, pos, "elements are removed from arrayObject.values here but objCount is never adjusted: it over-counts from then on, and a later sparse write can make objCount == length == len(values) hold for an array with holes, which checkStdArrayObj() takes as proof of a dense array (fast paths then read nil elements)")
 		}
 	}
+	// objCount exactness on bulk assignment: `a.objCount = len(p)` for a caller-provided []Value
+	// over-counts when p has holes (nil), unless the function scans p for nil.
+	for _, w := range p.FieldWrites(fObjCount) {
+		if w.Kind != "store" || w.Val == nil {
+			continue
+		}
+		c, ok := core.Origin(w.Val).(*ssa.Call)
+		if !ok {
+			continue
+		}
+		if b, ok := c.Call.Value.(*ssa.Builtin); !ok || b.Name() != "len" {
+			continue
+		}
+		prm, ok := core.Origin(c.Call.Args[0]).(*ssa.Parameter)
+		if !ok {
+			continue
+		}
+		sl, ok := prm.Type().Underlying().(*types.Slice)
+		if !ok || !core.IsGojaNamed(sl.Elem(), "Value") {
+			continue
+		}
+		key := core.FuncName(w.Fn) + ":objCount = len(" + prm.Name() + ")"
+		res.Bad(key, p.Pos(w.Instr.Pos()), "objCount is set to the length of a caller-provided []Value without counting the nil (hole) elements: a result with holes (e.g. [1,,3].map(f)) then passes checkStdArrayObj() as a dense array and the fast paths read nil elements")
+	}
 	res.Count("element-removing functions", len(rfns))
 	res.Count("in-place shrink sites", nShrink)
 	res.Count("in-place grow sites", nGrow)
